@@ -190,7 +190,9 @@ def bodyH : Handler := fun inp impl => do
   let gz := optBool inp "gzip"
   let expect := optBool inp "expect"
   let ae := optStr inp "ae"
-  let rce := optStr inp "rce"
+  -- the Content-Encoding lines the upstream declares (older corpus lines: none)
+  let rceLines := ((arr inp "rce").toOption.getD #[]).toList.filterMap fun j => match j with | Json.str p => some p | _ => none
+  let rceAny := rceLines.any (· ≠ "")
   let ctype := optStr inp "ctype"
   let cfg := optObj inp "cfg"
   let g (k : String) : Json := (impl.getObjVal? k).toOption.getD Json.null
@@ -216,7 +218,7 @@ def bodyH : Handler := fun inp impl => do
   -- and is undone before comparing (dec_*: what the harness got out of the gzip stream). A coding the upstream
   -- declared itself is never undone: those bytes and that label are the upstream's.
   let gotCE := (gotHdr.filter (·.1 = "Content-Encoding")).map (·.2)
-  let byFabio := gz && rce = "" && gotCE == ["gzip"]
+  let byFabio := gz && !rceAny && gotCE == ["gzip"]
   let decOK := optBool impl "dec_ok"
   let (cLen, cSha) := if byFabio then (g "dec_len", g "dec_sha") else (g "got_len", g "got_sha")
   let gotE2E := if byFabio then gotHdr.filter (·.1 ≠ "Content-Encoding") else gotHdr
@@ -231,10 +233,12 @@ def bodyH : Handler := fun inp impl => do
     then (sentInterim.zip gotInterim).map (fun ab => if interimOK ab then ab.1 else ab.2) else gotInterim
   let m := Json.mkObj [("hits", (1 : Int)), ("up_method", method), ("up_len", g "sent_len"), ("up_sha", g "sent_sha"),
                        ("status", mFinal), ("interim", interimsJson mInterimFull), ("encoded", engaged),
-                       ("got_len", g "rep_len"), ("got_sha", g "rep_sha"), ("got_hdr", groupJson repHdr)]
+                       ("got_len", g "rep_len"), ("got_sha", g "rep_sha"), ("got_hdr", groupJson repHdr),
+                       ("got_trailer", groupJson ((kvPairs impl "rep_trailer").toOption.getD []))]
   let ci := Json.mkObj [("hits", g "hits"), ("up_method", g "up_method"), ("up_len", g "up_len"), ("up_sha", g "up_sha"),
                         ("status", g "status"), ("interim", interimsJson gotInterimShown), ("encoded", byFabio),
-                        ("got_len", cLen), ("got_sha", cSha), ("got_hdr", groupJson gotShown)]
+                        ("got_len", cLen), ("got_sha", cSha), ("got_hdr", groupJson gotShown),
+                        ("got_trailer", groupJson ((kvPairs impl "got_trailer").toOption.getD []))]
   -- the sentences: the upstream got the client's method and body; the client got the upstream's status, end-to-end
   -- headers and body bytes — and the informational responses the upstream sent, in order, each with its headers
   let sameInterim := sentInterim.length == gotInterim.length && (sentInterim.zip gotInterim).all interimOK
@@ -242,14 +246,21 @@ def bodyH : Handler := fun inp impl => do
     g "up_len" == g "sent_len" && g "up_sha" == g "sent_sha" && g "sent_len" == Json.num reqlen &&
     g "status" == Json.num rstatus && cLen == g "rep_len" && cSha == g "rep_sha" && (!byFabio || decOK) &&
     hdrOK && sameInterim
+  -- trailer fields of the reply: end-to-end header fields behind the body
+  let tr (k : String) : List (String × String) := (kvPairs impl k).toOption.getD []
+  let trailersOK := sameMultiset (tr "rep_trailer") (tr "got_trailer")
+  let hasTrailer := !(tr "rep_trailer").isEmpty
+  let spec := spec && trailersOK
   let big := reqlen > 65536 || (impl.getObjValAs? Int "rep_len").toOption.getD 0 > 65536
   let tag := (if chunks.size > 0 then "req-chunked" else if reqlen > 0 then "req-cl" else "req-empty") ++
              (if rchunked then "/rep-chunked" else "/rep-cl") ++ (if big then "/big" else "") ++
              (if announced.isEmpty then "" else "/1xx") ++ (if expect then "/expect" else "") ++
              (if gz then (if byFabio then "/gz-encoded" else "/gz") else "") ++
-             (if rce ≠ "" then "/ce" else "") ++
+             (if rceAny then "/ce" else "") ++ (if hasTrailer then "/trailer" else "") ++
              (if "application/x-www-form-urlencoded".toList.isPrefixOf ctype.toList then "/form" else "") ++
              (if cfgOn cfg then "/cfg" else "")
+  -- recorded finding: the gzip layer judges "already encoded" by the first Content-Encoding line alone
+  let tag := if gz && rceAny && rceLines.head? == some "" then "content-encoding-first-line-empty" else tag
   return ({ model := m, agree := m == ci, spec := spec,
             nontrivial := reqlen > 0 || (impl.getObjValAs? Int "rep_len").toOption.getD 0 > 0 || !announced.isEmpty, tag := tag } : Verdict).toJson
 
